@@ -804,16 +804,19 @@ class Emitter:
                 # `x[..]`: the whole slice (cannot panic)
                 return k(base, bty, env1)
             if e.idx.kind == "range":
-                sl_fn, sl_ty = "slice", bty
+                sl_fn, sl_ty, sl_len = "slice", bty, "len"
                 if bty[0] == "struct" and self.v["structs"][bty[1]].get("index_range"):
                     # optional struct key `index_range`: (slicing function, type of the slice)
                     sl_fn, sl_ty = self.v["structs"][bty[1]]["index_range"]
+                    # optional struct key `index_len`: the length an open upper bound `&s[a..]` stands for (a str held as
+                    # its code points: the BYTE length, not the length of the list)
+                    sl_len = self.v["structs"][bty[1]].get("index_len", "len")
 
                 def with_lo(lo, env2):
                     def with_hi(hi, env3):
                         return self.bind("%s %s %s %s" % (sl_fn, base, lo, hi), sl_ty, env3, k, hint="sl")
                     if e.idx.hi is None:
-                        return with_hi("(len %s)" % base, env2)
+                        return with_hi("(%s %s)" % (sl_len, base), env2)
                     if e.idx.incl:
                         return self.expr(e.idx.hi, env2, lambda h, _t, env3: with_hi("(%s + 1)" % h, env3))
                     return self.expr(e.idx.hi, env2, lambda h, _t, env3: with_hi(h, env3))
@@ -2171,6 +2174,9 @@ class Emitter:
             def k_cl(ts, tys, env1):
                 if self.pure_mode:
                     raise NeedsBind()
+                if getattr(cv.ty, "node", None) is not None and any(
+                        p[0] == "struct" and a[0] == "struct" and p != a for p, a in zip(cv.ty[2], tys)):
+                    return self.inline_closure(name, cv, ts, tys, env1, k)
                 r = self.fresh("r")
                 return "'(_, %s) <- %s %s tt ;;\n%s" % (r, cv.coq, " ".join(ts), k(r, cv.ty[3], env1))
             return self.exprs(e.args, env, k_cl)
@@ -2552,6 +2558,8 @@ class Emitter:
             st.append(c)
             env2 = env2.rebind(n, c)
         stpat = "_" if not st else (st[0] if len(st) == 1 else "'(%s)" % ", ".join(st))
+        if not st and self.v.get("closure_unit_state"):
+            stpat = "(_ : unit)"        # (a closure every call of which was inlined, inline_closure, is never applied to `tt`)
         if self.v.get("closure_state_types") and len(st) > 1:
             # optional vocabulary key `closure_state_types: True`: the tuple of captured variables is annotated with its
             # type (Coq cannot always infer the product from the body)
@@ -2840,8 +2848,42 @@ class Emitter:
                 ret = self.closure_ret
             ty = ClosureTy(("closure", tuple(cap), tuple(ptys), ret))
             ty.ret = self.closure_ret if self.closure_ret is not None else ret
+            ty.node, ty.denv = e, env       # inline_closure
             return k(fterm, ty, env1)
         return self.closure_st(e, ptys, env, k1)
+
+    def inline_closure(self, name, cv, ts, tys, env, k):
+        """`f(args)` for a local closure that assigns nothing it captures, where an argument's vocabulary type is not
+        the declared parameter type: ONE Rust type with two readings in the vocabulary (text area: a `&str` as its code
+        points / a slice of it as bytes).  The function emitted at the `let` read the parameter as declared, which would
+        be the wrong reading of this argument; the body is translated again at the call, the parameters typed by the
+        arguments.  What the closure captures it only reads: by the borrow rules nothing it borrows is assigned while
+        it is alive, so the variables stand for the same values as at the definition (whose environment is used); a
+        `move` closure copies its captures and is refused."""
+        node = cv.ty.node
+        if getattr(node, "move", False):
+            raise EmitError("call of the `move` closure %s with an argument of another vocabulary type than declared" % name)
+        cenv = cv.ty.denv
+        pre = []
+        for (p, _ty), pty, t, aty in zip(node.params, cv.ty[2], ts, tys):
+            while p.kind == "pref":
+                p = p.inner
+            if p.kind != "pident":
+                raise EmitError("closure parameter pattern")
+            if not self.is_atom(t):
+                n = self.fresh(p.name)
+                pre.append("let %s := %s in\n" % (n, t))
+                t = n
+            cenv = cenv.bind(p.name, t, aty if (pty[0] == "struct" and aty[0] == "struct") or pty == UNKNOWN else pty, p.mut)
+
+        def build(kk):
+            oldctl = self.ctl
+            self.ctl = Ctl(lambda envx, t, ty: kk(t, ty, envx))     # `return` / `?` leave the closure only
+            try:
+                return self.expr(node.body, cenv, kk)
+            finally:
+                self.ctl = oldctl
+        return "".join(pre) + self.join_branches(cenv, lambda t, ty, _cenv2: k(t, ty, env), build)
 
     def call_closure(self, var, args, env, k):
         """`f(args)` where `f` is a local variable bound to a closure (e_closure): the state-passing function is applied
@@ -2999,6 +3041,18 @@ class Emitter:
                 er = self.fresh("err")
                 return "match %s with\n| inl %s =>\n%s\n| inr %s =>\n%s\nend" % (
                     t, x, ind(k(x, ty[1], env1), 4), er, ind(self.ctl.ret(env1, "(inr %s)" % er, ("res", UNKNOWN)), 4))
+            if ty[0] == "result" and self.res_ind():
+                # `?` on a Result of the vocabulary's inductive result type (optional key `result`): Ok(x) goes on with x,
+                # Err(e) returns Err(e) -- `From::from` on the error is the identity when both error types are the same;
+                # when they differ the generated `Err e` is ill-typed in Coq (the safe side)
+                if self.pure_mode:
+                    raise NeedsBind()
+                rv = self.v["result"]
+                x = self.fresh("q")
+                er = self.fresh("err")
+                return "match %s with\n| %s %s =>\n%s\n| %s %s =>\n%s\nend" % (
+                    t, rv["ok"], x, ind(k(x, ty[1], env1), 4), rv["err"], er,
+                    ind(self.ctl.ret(env1, "(%s %s)" % (rv["err"], er), ("result", UNKNOWN, ty[2])), 4))
             if ty[0] != "opt":
                 raise EmitError("? on %r" % (ty,))
             if self.pure_mode:
